@@ -79,10 +79,59 @@ def correspond(ctx):
     c['violations'] = _violations(st, 'monitor during correspondence')
     if isinstance(st, dict):
         st.pop('violations', None)
+        if c.get('bad_op'):
+            c['ok'] = False
+            c['errors'].append('%d op lines were rejected by the model driver (bad-op): generator/driver mismatch' % c['bad_op'])
         if st.get('child_failures'):
             c['ok'] = False
             c['errors'].append('%d scenario processes died' % st['child_failures'])
-    return [c]
+    return [c, _fault_stage(ctx)]
+
+
+def _fault_stage(ctx):
+    """Write faults that RETURN AN ERROR (hook H2b-c05, db.VerifC05FaultGate), monitor only: for a plain extension and
+    a write whose error the code checks (hash index, height index, state commit, recorded head) the error must surface
+    as AddBlockFailed with the head unmoved, a restart must restore exactly the old chain and delivering the block
+    again must succeed; for every fault: no panic, restart works. Errors the code ignores and faults inside a reorg
+    are recorded in the statistics only (store errors are outside the property's quantifier)."""
+    res = dict(name='write-faults', ok=True, ops=0, mismatches=0, unmodelled=0, errors=[], violations=[], samples=[],
+               distinct_nontrivial=0)
+    hook = os.path.join(ctx.repo, 'src', 'middleware', 'db', 'verif_c05_hook.go')
+    if not (os.path.exists(hook) and 'VerifC05FaultGate' in open(hook).read()):
+        res['stats'] = dict(skipped='repository under test has no write-fault gate (verif hook H2b-c05); stage not run')
+        return res
+    binp, log = vlib.go_build(ctx, vlib.HARNESS, './cmd/c05', 'c05fault', tags='verif c05fault')
+    if not binp:
+        res['ok'] = False
+        res['errors'].append('fault harness build failed: ' + log[-1200:])
+        return res
+    cwd = ctx.scratch('c05-fault')
+    ops, obs = os.path.join(ctx.work, 'c05f.ops'), os.path.join(ctx.work, 'c05f.obs')
+    n = 400 if ctx.thorough() else 40
+    rc, so, se = vlib.run([binp, 'ops=' + ops, 'obs=' + obs, 'tier=' + ctx.tier, 'mode=fault', 'n=%d' % n, 'workers=14'], cwd=cwd,
+                          env=dict(VERIF_SEED=str(ctx.seed), GOMEMLIMIT='8GiB'), timeout=1200)
+    import shutil
+    shutil.rmtree(cwd, ignore_errors=True)
+    st = None
+    for line in so.split('\n'):
+        if line.startswith('STATS '):
+            try:
+                st = json.loads(line[6:])
+            except Exception:
+                pass
+    if rc != 0 or st is None:
+        res['ok'] = False
+        res['errors'].append('fault run failed rc=%d %s' % (rc, (se or so)[-600:]))
+        return res
+    res['ops'] = st.get('ops', 0)
+    res['distinct_nontrivial'] = st.get('kinds', {}).get('addf', 0)
+    res['violations'] = _violations(st, 'write faults')
+    st.pop('violations', None)
+    res['stats'] = st
+    if st.get('child_failures'):
+        res['ok'] = False
+        res['errors'].append('%d fault scenario processes died' % st['child_failures'])
+    return res
 
 
 def search(ctx, hints):
@@ -115,6 +164,32 @@ def search(ctx, hints):
     res['distinct_nontrivial'] = st.get('ops', 0) - st.get('kinds', {}).get('tx', 0) - st.get('kinds', {}).get('blk', 0)
     res['violations'] = _violations(st, 'searcher')
     res['stats'] = {k: v for k, v in st.items() if k != 'violations'}
+    res['concurrency_evidence'] = ('%d concurrent-delivery steps (several goroutines delivering, one reading) followed by the '
+                                   'ChainInv monitor; evidence, not proof' % st.get('kinds', {}).get('par', 0))
+    if ctx.thorough():
+        # the same under the race detector (a DATA RACE report makes the scenario process exit non-zero)
+        rbin, rlog = vlib.go_build(ctx, vlib.HARNESS, './cmd/c05', 'c05race', race=True)
+        if not rbin:
+            res['error'] = 'race build failed: ' + rlog[-800:]
+            return res
+        cwd2 = ctx.scratch('c05-race')
+        rc, so, se = vlib.run([rbin, 'ops=' + ops + '.race', 'obs=' + obs + '.race', 'tier=' + ctx.tier, 'mode=search', 'n=300', 'workers=12'],
+                              cwd=cwd2, env=dict(VERIF_SEED=str(ctx.seed + 1), GOMEMLIMIT='8GiB'), timeout=1500)
+        shutil.rmtree(cwd2, ignore_errors=True)
+        st2 = None
+        for line in so.split('\n'):
+            if line.startswith('STATS '):
+                try:
+                    st2 = json.loads(line[6:])
+                except Exception:
+                    pass
+        if rc != 0 or st2 is None:
+            res['error'] = 'race run failed rc=%d %s' % (rc, (se or so)[-600:])
+            return res
+        res['evaluations'] += st2.get('ops', 0)
+        res['violations'] += _violations(st2, 'searcher under -race')
+        res['concurrency_evidence'] += '; -race build: %d more steps, %d scenario processes died' % (
+            st2.get('kinds', {}).get('par', 0), st2.get('child_failures', 0))
     try:
         with open(ops) as fo, open(obs) as fb:
             for i, (o, x) in enumerate(zip(fo, fb)):
